@@ -231,6 +231,12 @@ func (k KeyEnvelope) Unwrap(kek []byte) (lorawan.AES128Key, error) {
 		return key, errors.Wrap(err, "new cipher error")
 	}
 
+	// a wrapped 128 bit key is 24 bytes (RFC 3394), anything that is not at
+	// least that or not a multiple of 64 bits can't be unwrapped
+	if len(k.AESKey) < 24 || len(k.AESKey)%8 != 0 {
+		return key, errors.New("unwrap key errror: invalid AESKey length")
+	}
+
 	b, err := keywrap.Unwrap(block, k.AESKey[:])
 	if err != nil {
 		return key, errors.Wrap(err, "unwrap key errror")
